@@ -353,4 +353,194 @@ Proof.
       unfold abs at 2. rewrite Ev, Eb, Ef, Hcur. cbn [negb].
       replace (base i + bs_cur (it_bi it) + 1)%nat with (base (S i)) by (rewrite base_S; lia). exact Hs.
 Qed.
+
+(* ---- seek ------------------------------------------------------------------------------- *)
+(* what the index iterator says once it is positioned for key *)
+Lemma index_positioned_facts idx key : positioned ib iridx idx key ->
+  (bs_valid idx = true -> (bs_cur idx < nb)%nat /\
+     (forall j, (j < bs_cur idx)%nat -> bcmp (key_at ib j) key = Lt) /\ bcmp (key_at ib (bs_cur idx)) key <> Lt) /\
+  (bs_valid idx = false -> forall j, (j < nb)%nat -> bcmp (key_at ib j) key = Lt).
+Proof.
+  intros (Hok & Hlt & Hge). split.
+  - intros Hv. rewrite Hv in Hlt. splits; [apply st_ok_ib_valid; assumption| |apply Hge, Hv].
+    intros j Hj. apply Hlt; [|exact Hj]. pose proof (st_ok_ib_valid _ Hok Hv). rewrite Hnb. lia.
+  - intros Hv. rewrite Hv in Hlt. intros j Hj. apply Hlt; rewrite Hnb; exact Hj.
+Qed.
+
+(* the state after a seek: either the iterator is failed and no entry is >= key, or it stands
+   before the first entry >= key *)
+Definition seek_post (it' : riter) (key : bytes) : Prop :=
+  it_ok it' /\ ((abs it' = Some (gfirst key)) \/ (abs it' = None /\ gfirst key = total)).
+
+Lemma finish_seek it idx i' bi0 key (blk_same : bool) :
+  st_ok ib iridx idx -> bs_valid idx = true -> bs_cur idx = i' -> (i' < nb)%nat ->
+  (forall j, (j < i')%nat -> bcmp (key_at ib j) key = Lt) -> bcmp (key_at ib i') key <> Lt ->
+  st_ok (B i') (Rr i') bi0 ->
+  exists bi, block_seek (B i') bi0 key = Ok bi /\
+    seek_post (mkri (it_kind it) (it_k it) (ioff i') (Some (ioff i', B i')) bi idx true true) key.
+Proof.
+  intros Hidxok Hiv Hc Hi Hbefore Hsep Hbi0.
+  destruct (block_seek_ok (B i') (Rr i') (HW i' Hi) bi0 key Hbi0) as (bi & Hseek & Hpos).
+  exists bi. split; [exact Hseek|].
+  pose proof (gfirst_from_block i' bi key Hi Hbefore Hsep Hpos) as Hg.
+  destruct Hpos as (Hbiok & _ & _).
+  split.
+  - unfold it_ok. cbn [it_index it_b it_valid it_block_offset it_bi it_first]. split; [exact Hidxok|].
+    exists i'. splits; try reflexivity; try assumption; try (intros; assumption).
+    intros _. split; [exact Hiv|intros; discriminate].
+  - left. unfold abs. cbn [it_valid it_b it_first it_index it_bi negb]. rewrite Hc, Hg.
+    destruct (bs_valid bi); reflexivity.
+Qed.
+
+(* T03b (reader level), seek *)
+Theorem reader_seek_refines it key : it_ok it ->
+  exists it', reader_iter_seek decompress r it key = Ok (it', true) /\ seek_post it' key /\
+    it_kind it' = it_kind it /\ it_k it' = it_k it.
+Proof.
+  intros Hok. unfold reader_iter_seek. rewrite Hidx.
+  pose proof Hok as (Hidxok & Hb).
+  destruct (needs_index_seek ib it key) eqn:Ens.
+  - (* the index is consulted *)
+    destruct (block_seek_ok ib iridx Wib (it_index it) key Hidxok) as (idx & -> & Hpos).
+    pose proof (index_positioned_facts idx key Hpos) as [Hvalid Hinvalid].
+    destruct Hpos as (Hidx'ok & _ & _).
+    destruct (bs_valid idx) eqn:Eiv; cbn [negb].
+    + destruct (Hvalid eq_refl) as (Hi' & Hbefore & Hsep).
+      rewrite index_offset_ioff.
+      set (i' := bs_cur idx) in *.
+      (* reuse of the decoded block: only when it is the block the index points to *)
+      destruct (it_b it) as [[o b]|] eqn:Eb.
+      * destruct Hb as (i & Hi & -> & -> & Hoff & Hbi & Hcur & Hval).
+        rewrite Hoff. destruct (ioff i =? ioff i') eqn:Eo.
+        -- apply N.eqb_eq in Eo. pose proof (Hinj i i' Hi Hi' Eo) as ->.
+           destruct (finish_seek it idx i' (it_bi it) key true Hidx'ok Eiv eq_refl Hi' Hbefore Hsep Hbi) as (bi & -> & Hpost).
+           eexists. split; [reflexivity|]. splits; [exact Hpost|reflexivity|reflexivity].
+        -- rewrite (Hget i' Hi').
+           destruct (finish_seek it idx i' (bs_invalid (B i')) key false Hidx'ok Eiv eq_refl Hi' Hbefore Hsep
+                       (st_ok_invalid (B i') (Rr i') (HW i' Hi'))) as (bi & -> & Hpost).
+           eexists. split; [reflexivity|]. splits; [exact Hpost|reflexivity|reflexivity].
+      * rewrite (Hget i' Hi').
+        destruct (finish_seek it idx i' (bs_invalid (B i')) key false Hidx'ok Eiv eq_refl Hi' Hbefore Hsep
+                    (st_ok_invalid (B i') (Rr i') (HW i' Hi'))) as (bi & -> & Hpost).
+        eexists. split; [reflexivity|]. splits; [exact Hpost|reflexivity|reflexivity].
+    + (* past the last separator: the iterator is marked invalid *)
+      eexists. split; [reflexivity|]. splits; try reflexivity.
+      split.
+      * unfold it_ok. cbn [it_index it_b it_valid it_block_offset it_bi it_first]. split; [exact Hidx'ok|].
+        destruct (it_b it) as [[o b]|] eqn:Eb; [|reflexivity].
+        destruct Hb as (i & Hi & -> & -> & Hoff & Hbi & Hcur & Hval).
+        exists i. splits; try reflexivity; try assumption; try (intros; congruence); try (intros; discriminate).
+      * right. split; [unfold abs; cbn [it_valid negb]; reflexivity|]. apply gfirst_past_all. exact (Hinvalid eq_refl).
+  - (* the current block still covers the target: cur_key <= key <= separator of the block held *)
+    unfold needs_index_seek in Ens.
+    destruct (it_first it) eqn:Ef; [discriminate|].
+    destruct (it_b it) as [[o b]|] eqn:Eb; [|discriminate].
+    destruct Hb as (i & Hi & -> & -> & Hoff & Hbi & Hcur & Hval).
+    destruct (bs_valid (it_bi it)) eqn:Ebv; cbn [negb] in Ens; [|discriminate].
+    unfold bs_key in Ens. fold (key_at (B i) (bs_cur (it_bi it))) in Ens.
+    destruct (bcmp (key_at (B i) (bs_cur (it_bi it))) key) eqn:Ecur; try discriminate;
+      (destruct (bs_valid (it_index it)) eqn:Eiv; cbn [negb] in Ens; [|discriminate]);
+      fold (key_at ib (bs_cur (it_index it))) in Ens;
+      (destruct (bcmp (key_at ib (bs_cur (it_index it))) key) eqn:Esep; try discriminate);
+      specialize (Hcur eq_refl); cbn [negb]; rewrite index_offset_ioff, Hcur, Hoff, N.eqb_refl.
+    all: assert (Hj : (bs_cur (it_bi it) < nentries (B i))%nat) by (unfold st_ok in Hbi; rewrite Ebv in Hbi; tauto).
+    all: assert (Hbefore : forall j, (j < i)%nat -> bcmp (key_at ib j) key = Lt)
+      by (intros j Hjlt;
+          assert (Hsl : bcmp (key_at ib j) (key_at (B i) (bs_cur (it_bi it))) = Lt) by (apply sep_lt_later; assumption);
+          first [ (apply bcmp_eq in Ecur; rewrite <- Ecur; exact Hsl) | exact (bcmp_lt_trans _ _ _ Hsl Ecur) ]).
+    all: assert (Hsep : bcmp (key_at ib i) key <> Lt) by (rewrite <- Hcur, Esep; discriminate).
+    all: destruct (finish_seek it (it_index it) i (it_bi it) key true Hidxok Eiv Hcur Hi Hbefore Hsep Hbi) as (bi & -> & Hpost).
+    all: eexists; split; [reflexivity|]; splits; [exact Hpost|reflexivity|reflexivity].
+Qed.
+
+(* ---- creation ----------------------------------------------------------------------------- *)
+Theorem reader_iter_refines :
+  exists it, reader_iter decompress r = Ok (Some it) /\ it_ok it /\ abs it = Some 0%nat /\ it_kind it = KIter.
+Proof.
+  unfold reader_iter. rewrite Hidx.
+  destruct (seek_first_ok ib iridx Wib) as (idx & -> & Hidxok & Hiv & Hic).
+  unfold get_block_at_index. rewrite Hiv, index_offset_ioff, Hic.
+  assert (H0 : (0 < nb)%nat) by (rewrite <- Hnb; exact (wb_ne _ _ Wib)).
+  rewrite (Hget 0%nat H0).
+  destruct (seek_first_ok (B 0%nat) (Rr 0%nat) (HW 0%nat H0)) as (bi & -> & Hbiok & Hbv & Hbc).
+  eexists. split; [reflexivity|]. splits; [|unfold abs; cbn [it_valid it_b it_first it_index it_bi negb]; rewrite Hbv, Hic, Hbc; reflexivity|reflexivity].
+  unfold it_ok. cbn [it_index it_b it_valid it_block_offset it_bi it_first]. split; [exact Hidxok|].
+  exists 0%nat. splits; try reflexivity; try assumption; try (intros; assumption). intros _. split; [exact Hiv|intros; discriminate].
+Qed.
+
+(* get / get_prefix / get_range: NULL exactly when no entry is >= the start key; otherwise an
+   iterator standing before the first entry >= the start key, with the requested bound *)
+Theorem reader_iter_init_refines kind key bound :
+  match reader_iter_init decompress r kind key bound with
+  | Ok None => gfirst key = total
+  | Ok (Some it) => it_ok it /\ abs it = Some (gfirst key) /\ it_kind it = kind /\ it_k it = bound
+  | _ => False
+  end.
+Proof.
+  unfold reader_iter_init. rewrite Hidx.
+  destruct (block_seek_ok ib iridx Wib (bs_invalid ib) key (st_ok_invalid ib iridx Wib)) as (idx & -> & Hpos).
+  pose proof (index_positioned_facts idx key Hpos) as [Hvalid Hinvalid].
+  destruct Hpos as (Hidx'ok & _ & _).
+  unfold get_block_at_index. destruct (bs_valid idx) eqn:Eiv.
+  - destruct (Hvalid eq_refl) as (Hi' & Hbefore & Hsep). rewrite index_offset_ioff. rewrite (Hget _ Hi').
+    destruct (block_seek_ok (B (bs_cur idx)) (Rr (bs_cur idx)) (HW _ Hi') (bs_invalid _) key (st_ok_invalid _ _ (HW _ Hi')))
+      as (bi & -> & Hpos).
+    pose proof (gfirst_from_block _ bi key Hi' Hbefore Hsep Hpos) as Hg. destruct Hpos as (Hbiok & _ & _).
+    splits; try reflexivity.
+    + unfold it_ok. cbn [it_index it_b it_valid it_block_offset it_bi it_first]. split; [exact Hidx'ok|].
+      exists (bs_cur idx). splits; try reflexivity; try assumption; try (intros; reflexivity).
+      intros _. split; [exact Eiv|intros; discriminate].
+    + unfold abs. cbn [it_valid it_b it_first it_index it_bi negb]. rewrite Hg. destruct (bs_valid bi); reflexivity.
+  - apply gfirst_past_all. exact (Hinvalid eq_refl).
+Qed.
+(* ---- histories --------------------------------------------------------------------------- *)
+Inductive rop := RNext | RSeek (k : bytes).
+
+(* the model: reader_iter_next / reader_iter_seek; outputs None for a failed next and for seeks *)
+Fixpoint run_model (it : riter) (ops : list rop) : res (list (option entry)) :=
+  match ops with
+  | [] => Ok []
+  | RNext :: tl =>
+    match reader_iter_next decompress r it with
+    | Ok (it', e) => match run_model it' tl with Ok l => Ok (e :: l) | Fail => Fail | Abort => Abort | Oob => Oob end
+    | Fail => Fail | Abort => Abort | Oob => Oob
+    end
+  | RSeek k :: tl =>
+    match reader_iter_seek decompress r it k with
+    | Ok (it', _) => match run_model it' tl with Ok l => Ok (None :: l) | Fail => Fail | Abort => Abort | Oob => Oob end
+    | Fail => Fail | Abort => Abort | Oob => Oob
+    end
+  end.
+
+(* the specification: a cursor over the sorted list of all entries *)
+Fixpoint run_spec (kind : ikind) (k : bytes) (c : option nat) (ops : list rop) : list (option entry) :=
+  match ops with
+  | [] => []
+  | RNext :: tl => let '(c', e) := spec_next kind k c in e :: run_spec kind k c' tl
+  | RSeek key :: tl => None :: run_spec kind k (Some (gfirst key)) tl
+  end.
+
+Definition rel (it : riter) (c : option nat) : Prop :=
+  abs it = c \/ (abs it = None /\ c = Some total).
+
+Lemma spec_next_total kind k : spec_next kind k (Some total) = (None, None).
+Proof. unfold spec_next. replace (total <? total)%nat with false by lia. reflexivity. Qed.
+
+(* T03c: every history of next / seek calls *)
+Theorem history_refines : forall ops it c, it_ok it -> rel it c ->
+  run_model it ops = Ok (run_spec (it_kind it) (it_k it) c ops).
+Proof.
+  induction ops as [|[|key] ops IH]; intros it c Hok Hrel; [reflexivity| |].
+  - cbn [run_model run_spec].
+    destruct (reader_next_refines it Hok)
+      as (it' & e & -> & Hok' & Hs & Hk1 & Hk2).
+    assert (Hc : spec_next (it_kind it) (it_k it) c = spec_next (it_kind it) (it_k it) (abs it)).
+    { destruct Hrel as [->|[Ha ->]]; [reflexivity|]. rewrite Ha, spec_next_total. reflexivity. }
+    rewrite Hc, <- Hs. rewrite <- Hk1, <- Hk2. rewrite (IH it' (abs it') Hok' (or_introl eq_refl)). reflexivity.
+  - cbn [run_model run_spec].
+    destruct (reader_seek_refines it key Hok)
+      as (it' & -> & (Hok' & Hpost) & Hk1 & Hk2).
+    rewrite <- Hk1, <- Hk2. rewrite (IH it' (Some (gfirst key)) Hok'); [reflexivity|].
+    destruct Hpost as [Ha|[Ha Ht]]; [left; exact Ha|right; split; [exact Ha|rewrite Ht; reflexivity]].
+Qed.
 End Table.
